@@ -186,6 +186,7 @@ func drawNumberString(t *rapid.T, forValue bool) string {
 }
 
 func TestC30(t *testing.T) {
+	runWitnesses(t, "C30")
 	col := ev.New("C30", "rapid: argument strings from a grammar (optional sign, prefix in {none,0x,0X,0b,0B,0o,0O,0}, digit "+
 		"runs valid or with one invalid character, lengths 0-70 so values exceed 2^64 / 2^(8w)) plus hostile tokens (\"0\", "+
 		"\"0x\", \"0b\", one-character strings, underscores, non-ASCII digits, exponent forms, 2^64-1 and 2^64 in every base). "+
